@@ -1,8 +1,9 @@
 (** C14 -- Part planning tiles the object and respects S3 limits.
     Only statements, each closed by [exact]/[apply] of a lemma from
     proofs/PlanProofs.v, each followed by Print Assumptions. *)
-From Coq Require Import ZArith List Bool Lia.
-From S3V Require Import gen.Tables model.Plan proofs.PlanProofs.
+From Coq Require Import ZArith List Bool Lia Reals.
+From Flocq Require Import Core.
+From S3V Require Import gen.Tables model.Plan proofs.PlanProofs proofs.FloatCeil.
 Import ListNotations.
 Open Scope Z_scope.
 
@@ -155,6 +156,27 @@ Proof.
     intros [= <-]. rewrite map_map, map_length, zseq_length. cbn [fst]. apply (G _ 0).
 Qed.
 Print Assumptions C14_part_numbers.
+
+(** The code computes part counts as [int(math.ceil(size / float(part_size)))]:
+    one correctly rounded binary64 division (both operands are exact below
+    2^53) followed by an exact ceiling.  On the whole domain C14 quantifies over
+    (5 TiB and 5 GiB are far below 2^53) this IS integer ceiling division, so
+    the integer model above is the code's arithmetic.  (Depends on the standard
+    library's real-number axioms; see Print Assumptions.) *)
+Theorem C14_float_ceiling_is_integer_ceiling : forall size part_size : Z,
+  0 <= size < 2 ^ 53 -> 0 < part_size < 2 ^ 53 ->
+  Zceil (round radix2 (FLT_exp (-1074) 53) ZnearestE (IZR size / IZR part_size)) = num_parts size part_size.
+Proof. exact float_ceil_div_exact. Qed.
+Print Assumptions C14_float_ceiling_is_integer_ceiling.
+
+(** ... and the bound is needed: beyond 2^53 the conversion to float already rounds. *)
+Theorem C14_float_ceiling_breaks_beyond_2_53 : exists a b : Z,
+  0 <= a /\ 0 < b /\
+  Zceil (round radix2 (FLT_exp (-1074) 53) ZnearestE
+           (round radix2 (FLT_exp (-1074) 53) ZnearestE (IZR a) / IZR b))
+  <> (a + b - 1) / b.
+Proof. exact float_ceil_div_breaks_beyond. Qed.
+Print Assumptions C14_float_ceiling_breaks_beyond_2_53.
 
 (** Non-vacuity: a concrete 5 TiB object with an 8 MiB configured chunk. *)
 Example C14_nonvacuous :
